@@ -1351,9 +1351,12 @@ static int32_t write_literal(void *context, const char *text, int length, int wr
  *        @li @c -CIF_ERROR for most other failures
  */
 static int32_t write_uliteral(void *context, const UChar *text, int length, int wrap) {
+    int32_t num_chars;  /* the number of characters (code points), as distinguished from UChar code units */
+
     if (length < 0) {
-        length = u_countChar32(text, -1);
+        length = u_strlen(text);
     }
+    num_chars = u_countChar32(text, length);
 
     if (length == 0) {
         return 0;
@@ -1361,7 +1364,7 @@ static int32_t write_uliteral(void *context, const UChar *text, int length, int 
         int last_column = LAST_COLUMN(context);
         int32_t nchars;
 
-        if ((length + last_column) > LINE_LENGTH(context)) {
+        if ((num_chars + last_column) > LINE_LENGTH(context)) {
             if (wrap == CIF_WRAP) {
                 if (write_newline(context)) {
                     last_column = 0;
@@ -1373,9 +1376,10 @@ static int32_t write_uliteral(void *context, const UChar *text, int length, int 
             }
         }
 
+        /* the field width and precision are measured in code units */
         nchars = u_fprintf(CONTEXT_UFILE(context), "%*.*S", length, length, text);
         if (nchars > 0) {
-            SET_LAST_COLUMN(context, last_column + nchars);
+            SET_LAST_COLUMN(context, last_column + num_chars);
         }
 
         return nchars;
